@@ -25,9 +25,15 @@ class _Other:
         return "<other>"
 
 
+class _StrSub(str):
+    """a strict subclass of str (like multidict.istr or a str-mixin enum member)"""
+
+
 def qvar(v):
     if isinstance(v, list):
         t = v[0]
+        if t == "strsub":
+            return _StrSub(v[1])
         if t == "float":
             return float(v[1])
         if t == "inf":
